@@ -2,6 +2,7 @@ package c09
 
 import (
 	"fmt"
+	"os"
 	"strings"
 	"testing"
 	"time"
@@ -43,6 +44,7 @@ func genMany(t *rapid.T, service string) manyCase {
 		c.Units = hexUnits(units)
 		c.Seg = rapid.SampledFrom([]string{"units", "single", "single"}).Draw(t, "seg")
 		c.End = rapid.SampledFrom([]string{"close", "close", "close", "reset"}).Draw(t, "end")
+		c.LingerMs = rapid.SampledFrom([]int{0, 0, 60}).Draw(t, "linger")
 		m.Conns = append(m.Conns, c)
 	}
 	return m
@@ -144,7 +146,7 @@ func TestManyClients(t *testing.T) {
 		}
 		return
 	}
-	r.Rule("per service one history of 20..60 different generated clients (grammar 3:1 mutated; per-unit or single-write delivery; close 3:1 reset) played strictly one after the other on a fresh lab child; oracle = every client closed by the server within 20 s, and goroutines in honeytrap frames / descriptors / listening sockets after the history equal those before it (judged 14 s after the last client; a difference is looked at again after two idle periods and must grow with a second round of the same history to count); services are spread over the shards; non-trivial = at least half of the clients got past the handler's first read; distinct by history")
+	r.Rule("per service one history of 20..60 different generated clients (grammar 3:1 mutated; per-unit or single-write delivery; a third of the clients read the replies before leaving; close 3:1 reset) played strictly one after the other on a fresh lab child; oracle = every client closed by the server within 20 s, and goroutines in honeytrap frames / descriptors / listening sockets after the history equal those before it (judged 14 s after the last client; a difference is looked at again after two idle periods and must grow with a second round of the same history to count); services are spread over the shards; non-trivial = at least half of the clients got past the handler's first read; distinct by history")
 	shard, shards := r.Shard()
 	var mine []string
 	for i, s := range svc.AllServices {
@@ -156,6 +158,12 @@ func TestManyClients(t *testing.T) {
 		return
 	}
 	rounds := r.Pick(1, 6)
+	// a failing history takes minutes to judge (two idle periods, twice): it is reported as
+	// found, not shrunk
+	if os.Getenv("VERIF_SHRINKTIME") == "" {
+		os.Setenv("VERIF_SHRINKTIME", "1ms")
+		defer os.Unsetenv("VERIF_SHRINKTIME")
+	}
 	for _, service := range mine {
 		service := service
 		r.Rapid(t, "TestManyClients", rounds, func(rt *rapid.T) {
